@@ -41,14 +41,15 @@ type Violation struct {
 
 // RunResult is the outcome of one run.
 type RunResult struct {
-	Violations []Violation    `json:"violations"`
-	Events     []Event        `json:"-"`
-	Steps      int            `json:"steps"`   // schedule steps applied
-	Skipped    int            `json:"skipped"` // schedule steps that could not be applied
-	Callbacks  int            `json:"callbacks"`
-	Note       string         `json:"note,omitempty"`
-	SkippedBy  map[string]int `json:"skipped_by,omitempty"`
-	Obs        []ObsEvent     `json:"obs,omitempty"`
+	Violations []Violation              `json:"violations"`
+	Events     []Event                  `json:"-"`
+	Steps      int                      `json:"steps"`   // schedule steps applied
+	Skipped    int                      `json:"skipped"` // schedule steps that could not be applied
+	Callbacks  int                      `json:"callbacks"`
+	Note       string                   `json:"note,omitempty"`
+	SkippedBy  map[string]int           `json:"skipped_by,omitempty"`
+	Obs        []ObsEvent               `json:"obs,omitempty"`
+	Conf       []map[string]interface{} `json:"conf,omitempty"` // trace for TraceSched (implementation-level validation against ResSched)
 }
 
 // groupTargets maps a model group to real API targets.
